@@ -10,15 +10,47 @@
 
 // The plain line calls every kind of definition, so that definition blocks are exported and not only parsed; "\n    more\n" is the
 // blank line + indented line pair that continues a definition / list item / note (one composite kind keeps 4-line structures inside L=3).
-static const char * K[] = {"text [^a] [#a] [?a] [>a] [a][]\n", "    code\n", "\tcode\n", "* item\n", "1. item\n", "> quote\n", "```\n", "````\n", "`````\n", "```perl\n",
-	"a | b\n", "--|--\n", ": def\n", "key: value\n", "<div>\n", "<span>x</span>\n", "\n", "***\n", "===\n", "---\n", "# head\n", "[a]: http://x\n",
-	"[^a]: note\n", "[#a]: cite\n", "[?a]: gloss\n", "[>a]: abbr\n", "{{TOC}}\n", "<!--\n", "-->\n", "  text\n", "+\n", "|\n", "\n    more\n"};
+static const char * K[] = {"ztext [^a] [#a] [?a] [>a] [a][]\n", "    code\n", "\tcode\n", "* zitem\n", "1. zitem\n", "> zquote\n", "```\n", "````\n", "`````\n", "```perl\n",
+	"a | b\n", "--|--\n", ": def\n", "key: value\n", "<div>\n", "<span>x</span>\n", "\n", "***\n", "===\n", "---\n", "# zhead\n", "[a]: http://x\n",
+	"[^a]: note\n", "[#a]: cite\n", "[?a]: gloss\n", "[>a]: abbr\n", "{{TOC}}\n", "<!--\n", "-->\n", "  ztext\n", "+\n", "|\n", "\n    zmore\n", "* key: zitem\n", "> key: zquote\n"};
 static const int NK = sizeof(K) / sizeof(K[0]);
 
 struct Stats { long docs = 0, conv = 0, nontrivial = 0, failures = 0; std::vector<std::string> samples; std::vector<std::string> fails; } S;
 static std::string outdir;
 
 static std::string esc(const std::string & s) { std::string o; for (char c : s) { if (c == '\n') o += "\\n"; else if (c == '\t') o += "\\t"; else if (c == '"' || c == '\\') { o += '\\'; o += c; } else o += c; } return o; }
+
+// "Nothing is silently dropped": words of lines that every writer prints wherever they stand.  `need` is built while the document is
+// assembled: the word of a plain line, list item, quote line or ATX heading -- unless the line can legitimately be swallowed by what
+// precedes it (the metadata block at the start of the document, a definition that nobody calls, a raw HTML block or comment, an open
+// fence), all of which end at a blank line.  A plain line directly after a link definition is the known lazy-continuation finding.
+static std::vector<std::string> needed_words(const std::vector<int> & ks) {
+	std::vector<std::string> need; bool swallow = false, in_def = false, in_comment = false, after_blank = true;
+	for (size_t i = 0; i < ks.size(); i++) {
+		int k = ks[i];
+		if (k == 27) { in_comment = true; continue; }                                     // an HTML comment runs until its closer, across blank lines
+		if (k == 28) { in_comment = false; swallow = true; continue; }
+		if (in_comment) continue;
+		if (k == 16) { swallow = false; after_blank = true; continue; }                   // blank line
+		if (k == 32) {                                                                    // blank + indented line: code, or the continuation of a definition
+			if (in_def) swallow = true; else { swallow = false; need.push_back("zmore"); }
+			after_blank = false; continue;
+		}
+		bool is_def = (k >= 21 && k <= 25);
+		if (after_blank && k != 1 && k != 2 && !is_def) in_def = false;                    // an unindented line after a blank line ends a definition
+		after_blank = false;
+		if (i == 0 && (k == 13 || k == 19)) { swallow = true; continue; }                 // metadata (possibly behind a --- fence) runs to the first blank line
+		if (k == 14 || k == 15 || (k >= 6 && k <= 9)) { swallow = true; continue; }       // raw HTML block, fence opener / closer
+		if (is_def) { swallow = true; in_def = true; continue; }                          // a definition and its lazy continuation lines are printed only if it is called
+		if (swallow) continue;
+		if (k == 0 || k == 29) need.push_back("ztext");
+		else if (k == 3 || k == 4 || k == 33) need.push_back("zitem");
+		else if (k == 5 || k == 34) need.push_back("zquote");
+		else if (k == 20) need.push_back("zhead");
+	}
+	return need;
+}
+static std::vector<std::string> g_need;
 
 static void run_doc(const std::string & doc, int len, bool first_plain) {
 	S.docs++;
@@ -27,7 +59,10 @@ static void run_doc(const std::string & doc, int len, bool first_plain) {
 		C02Result r = c02_convert(doc, C02_FMTS[f], C02_MODES[m], &out);
 		S.conv++;
 		if (len >= 2 && r.block_kinds >= 2) { S.nontrivial++; if (S.samples.size() < 4 && f == 0 && m == 0 && (S.docs % 97 == 1)) S.samples.push_back(esc(doc)); }
-		if (r.failure.empty() && first_plain && (f <= 4) && out.find("text") == std::string::npos) { r.failure = "text-lost"; r.detail = "first plain line does not appear in the output"; }
+		if (r.failure.empty() && first_plain && (f <= 4) && out.find("ztext") == std::string::npos) { r.failure = "text-lost"; r.detail = "first plain line does not appear in the output"; }
+		if (r.failure.empty() && f <= 4) {
+			for (const std::string & w : g_need) if (out.find(w) == std::string::npos) { r.failure = "word-lost:" + w; r.detail = "the word '" + w + "' of a line that is always printed does not appear in the output"; break; }
+		}
 		if (!r.failure.empty()) {
 			S.failures++;
 			if (S.fails.size() < 20) {
@@ -54,7 +89,7 @@ int main(int argc, char ** argv) {
 		std::ifstream f(argv[2]); std::string head; std::getline(f, head); std::string doc((std::istreambuf_iterator<char>(f)), std::istreambuf_iterator<char>());
 		int fi = 0, mi = 0; sscanf(head.c_str(), "fmt=%d mode=%d", &fi, &mi);
 		std::string out; C02Result r = c02_convert(doc, C02_FMTS[fi % 7], C02_MODES[mi % 2], &out);
-		if (r.failure.empty() && doc.compare(0, 5, "text ") == 0 && (fi <= 4) && out.find("text") == std::string::npos) { r.failure = "text-lost"; }
+		if (r.failure.empty() && doc.compare(0, 6, "ztext ") == 0 && (fi <= 4) && out.find("ztext") == std::string::npos) { r.failure = "text-lost"; }
 		if (!r.failure.empty()) { printf("C02-FAIL %s|%s|%s|%s\n", r.failure.c_str(), C02_FMT_NAMES[fi % 7], mi ? "compat" : "mmd", r.detail.c_str()); return 1; }
 		printf("replay ok\n"); return 0;
 	}
@@ -62,8 +97,9 @@ int main(int argc, char ** argv) {
 		int L = atoi(argv[2]); long shard = atol(argv[3]), nsh = atol(argv[4]); outdir = argv[5];
 		long total = 1; for (int i = 0; i < L; i++) total *= NK;
 		for (long idx = shard; idx < total; idx += nsh) {
-			long v = idx; std::string doc; int first = v % NK;
-			for (int i = 0; i < L; i++) { doc += K[v % NK]; v /= NK; }
+			long v = idx; std::string doc; int first = v % NK; std::vector<int> ks;
+			for (int i = 0; i < L; i++) { doc += K[v % NK]; ks.push_back(v % NK); v /= NK; }
+			g_need = needed_words(ks);
 			run_doc(doc, L, first == 0);
 		}
 		dump(); return 0;
@@ -73,6 +109,7 @@ int main(int argc, char ** argv) {
 		for (long idx = shard; idx < (long)NK * NK; idx += nsh) {
 			std::string unit = std::string(K[idx % NK]) + K[idx / NK], doc;
 			for (int i = 0; i < reps; i++) doc += unit;
+			g_need = needed_words(std::vector<int>{(int)(idx % NK), (int)(idx / NK)});
 			run_doc(doc, 2 * reps, false);
 		}
 		dump(); return 0;
@@ -81,8 +118,9 @@ int main(int argc, char ** argv) {
 		long count = atol(argv[2]); unsigned long long x = strtoull(argv[3], 0, 10) * 2654435761ULL + 88172645463325252ULL; int lo = atoi(argv[4]), hi = atoi(argv[5]); outdir = argv[6];
 		auto rnd = [&]() { x ^= x << 13; x ^= x >> 7; x ^= x << 17; return x; };
 		for (long n = 0; n < count; n++) {
-			int len = lo + rnd() % (hi - lo + 1); std::string doc; int first = -1;
-			for (int i = 0; i < len; i++) { int k = rnd() % NK; if (i == 0) first = k; doc += K[k]; }
+			int len = lo + rnd() % (hi - lo + 1); std::string doc; int first = -1; std::vector<int> ks;
+			for (int i = 0; i < len; i++) { int k = rnd() % NK; if (i == 0) first = k; doc += K[k]; ks.push_back(k); }
+			g_need = needed_words(ks);
 			run_doc(doc, len, first == 0);
 		}
 		dump(); return 0;
